@@ -37,7 +37,12 @@ def st_case(draw):
     init = {"e_factor": 10 ** draw(st.floats(-1.0, 1.0)),
             "vary": draw(st.lists(st.booleans(), min_size=8, max_size=8)),
             "ebounds": draw(st.sampled_from([None, None, [0.5, 2.0], [1.2, 5.0], [0.01, 0.8]])),
-            "cpbounds": draw(st.sampled_from([None, None, None, 0.02, 0.3]))}
+            "cpbounds": draw(st.sampled_from([None, None, None, 0.02, 0.3])),
+            # tie one parameter to the modulus by an expression that evaluates to its initial value; optionally a
+            # prior fit on the same object with that parameter merely fixed (the request then differs in the
+            # expression only)
+            "tie": draw(st.sampled_from([None, None, None, "contact_point", "baseline"])),
+            "prior_fixed": draw(st.booleans())}
     return {"src": src, "cfg": cfg, "init": init}
 
 
@@ -66,6 +71,25 @@ def setup_params(idnt, case):
     return pi
 
 
+def tie_param(pi, name):
+    """constrain `name` by an expression in the modulus that evaluates to its current value; returns
+    (prior parameter set with `name` fixed instead, factor) or (None, None) if not applicable"""
+    import copy as _copy
+    ekey = "E_S" if "E_S" in pi else "E"
+    if name not in pi or pi[name].expr or pi[ekey].expr or not pi[ekey].value:
+        return None, None
+    # lmfit clips the value of an expression to the parameter's bounds: a tied parameter is unbounded here
+    pi[name].set(min=-np.inf, max=np.inf)
+    v, e0 = float(pi[name].value), float(pi[ekey].value)
+    prior = _copy.deepcopy(pi)
+    prior[name].set(vary=False)
+    pi[ekey].set(vary=True)
+    prior[ekey].set(vary=True)
+    factor = v / e0
+    pi[name].set(expr="%r * %s" % (factor, ekey))
+    return prior, factor
+
+
 def expected_fit(model_key, pf, xk, k):
     """model evaluated at reported parameters in corrected coordinates"""
     vals = {n: p.value for n, p in pf.items()}
@@ -85,8 +109,14 @@ def check_case(case, ctx):
     cfg = case["cfg"]
     idnt = fitgen.build_source(case["src"])
     pi = setup_params(idnt, case)
+    tie_factor = prior = None
+    if case["init"].get("tie") and cfg["model_key"] != "verif_expr":
+        prior, tie_factor = tie_param(pi, case["init"]["tie"])
     init_state = fitgen.pstate(pi)
     kw = fitgen.fit_kwargs(idnt, cfg, params_initial=pi)
+    if prior is not None and case["init"].get("prior_fixed"):
+        with fitgen.catch():
+            idnt.fit_model(**fitgen.fit_kwargs(idnt, cfg, params_initial=prior))
     k = cfg["gcf_k"]
     wcp = cfg["weight_cp"]
     desc = {"model": cfg["model_key"], "method": cfg["method"], "range_type": cfg["range_type"]}
@@ -154,6 +184,13 @@ def check_case(case, ctx):
         else:
             ctx.check(mn <= p.value <= mx, "parameter-out-of-bounds", dict(desc, param=name, k1=(k == 1)),
                       f"{name}={p.value!r} outside [{mn!r}, {mx!r}] (k={k})")
+    if tie_factor is not None:
+        name = case["init"]["tie"]
+        ek = "E_S" if "E_S" in pf else "E"
+        want = tie_factor * pf[ek].value
+        ctx.check(abs(pf[name].value - want) <= 1e-9 * abs(want) + 1e-30, "expression-violated",
+                  dict(desc, param=name, prior_fit=bool(case["init"].get("prior_fixed"))),
+                  f"{name}={pf[name].value!r} but its expression {tie_factor!r}*{ek} gives {want!r}")
     if cfg["model_key"] == "verif_expr":
         ctx.check(abs(pf["E2"].value - 2 * pf["E"].value) <= 1e-12 * abs(pf["E"].value), "expression-violated", desc,
                   f"E2={pf['E2'].value!r} != 2*E={2 * pf['E'].value!r}")
